@@ -20,41 +20,54 @@ Inductive cres := COk | CFail | CRaise (e : exn).
 Definition symtab := alist expr.
 
 (* ---------------------------------------------------------------- _check_dims *)
+(* one iteration of the loop at lines 128-167: continue (with the single-axis memo as
+   mutated), fail, or raise *)
+Inductive sres := SCont (sm : alist Z) | SFail | SRaise (e : exn).
+
+Definition dkey (lbl : option string) (n : string) (tp : bool) : option string :=
+  if tp then option_map (fun l => l ++ n) lbl else Some n.
+
+Definition dim_step (lbl : option string) (st : symtab) (args : alist Z)
+           (d : dim) (z : Z) (sm : alist Z) : sres :=
+  match d with
+  | DAnon => SCont sm
+  | DVarAnon | DVarNamed _ _ _ => SRaise OtherExc              (* never passed here *)
+  | DFixed n bc =>
+      if bc && (z =? 1)%Z then SCont sm
+      else if (n =? z)%Z then SCont sm else SFail
+  | DSym src bc =>
+      if bc && (z =? 1)%Z then SCont sm
+      else match aget st src with
+           | None => SRaise OtherExc                            (* outside the modelled grammar *)
+           | Some e =>
+               match eval_sym sm args e with
+               | ENameErr => SRaise AnnotationErr
+               | EExc => SRaise OtherExc
+               | EBaseExc => SRaise BaseExc
+               | EVal v => if (v =? z)%Z then SCont sm else SFail
+               end
+           end
+  | DNamed n bc tp =>
+      if bc && (z =? 1)%Z then SCont sm
+      else
+        match dkey lbl n tp with
+        | None => SRaise AnnotationErr                          (* `?` outside a structured PyTree *)
+        | Some k =>
+            match aget sm k with
+            | None => SCont (aset sm k z)
+            | Some v => if (v =? z)%Z then SCont sm else SFail
+            end
+        end
+  end.
+
 Fixpoint check_dims (lbl : option string) (st : symtab) (args : alist Z)
          (dl : list dim) (sh : list Z) (sm : alist Z) : cres * alist Z :=
   match dl, sh with
   | d :: dl', z :: sh' =>
-      let continue := check_dims lbl st args dl' sh' in
-      match d with
-      | DAnon => continue sm
-      | DVarAnon | DVarNamed _ _ _ => (CRaise OtherExc, sm)      (* never passed here *)
-      | DFixed n bc =>
-          if bc && (z =? 1)%Z then continue sm
-          else if (n =? z)%Z then continue sm else (CFail, sm)
-      | DSym src bc =>
-          if bc && (z =? 1)%Z then continue sm
-          else match aget st src with
-               | None => (CRaise OtherExc, sm)                    (* outside the modelled grammar *)
-               | Some e =>
-                   match eval_sym sm args e with
-                   | ENameErr => (CRaise AnnotationErr, sm)
-                   | EExc => (CRaise OtherExc, sm)
-                   | EBaseExc => (CRaise BaseExc, sm)
-                   | EVal v => if (v =? z)%Z then continue sm else (CFail, sm)
-                   end
-               end
-      | DNamed n bc tp =>
-          if bc && (z =? 1)%Z then continue sm
-          else
-            let key := if tp then option_map (fun l => l ++ n) lbl else Some n in
-            match key with
-            | None => (CRaise AnnotationErr, sm)                  (* `?` outside a structured PyTree *)
-            | Some k =>
-                match aget sm k with
-                | None => continue (aset sm k z)
-                | Some v => if (v =? z)%Z then continue sm else (CFail, sm)
-                end
-            end
+      match dim_step lbl st args d z sm with
+      | SCont sm1 => check_dims lbl st args dl' sh' sm1
+      | SFail => (CFail, sm)
+      | SRaise e => (CRaise e, sm)
       end
   | _, _ => (COk, sm)
   end.
@@ -104,8 +117,7 @@ Definition check_shape (lbl : option string) (st : symtab) (d : dims) (sh : list
                 match nth_error dl i with
                 | Some DVarAnon => (COk, m2)
                 | Some (DVarNamed n bc tp) =>
-                    let key := if tp then option_map (fun l => l ++ n) lbl else Some n in
-                    match key with
+                    match dkey lbl n tp with
                     | None => (CRaise AnnotationErr, m2)
                     | Some kname =>
                         let mid := firstn (length sh - k - i) (skipn i sh) in
@@ -152,8 +164,8 @@ Definition pop_memo (s : stack) : stack := tl s.
 (* ---------------------------------------------------------------- __instancecheck_str__ *)
 (* flat = the "only look at the array type" mode used while a PyTree is being flattened;
    the in-place mutation is visible through the stack unless the snapshot is restored:
-   restored on CFail and on exceptions that are subclasses of Exception (line 237),
-   NOT on other BaseExceptions. *)
+   restored on CFail and on every exception (`except BaseException` at line 237 since
+   the fix commit 6f7f1fa; before it, only subclasses of Exception restored). *)
 Definition instancecheck (flat : bool) (lbl : option string) (st : symtab)
            (a : annot) (v : value) (s : stack) : verdict * stack :=
   if a_skip a then (Acc, s)
@@ -166,7 +178,7 @@ Definition instancecheck (flat : bool) (lbl : option string) (st : symtab)
     match r with
     | COk => (Acc, set_memo s m')
     | CFail => (Rej, set_memo s m)
-    | CRaise e => (Raise e, if is_exception_subclass e then set_memo s m else set_memo s m')
+    | CRaise e => (Raise e, set_memo s m)
     end.
 
 (* ---------------------------------------------------------------- rendering *)
@@ -198,3 +210,16 @@ Fixpoint run_steps (st : symtab) (steps : list step) (s : stack) : list string :
 
 Definition run_session (st : symtab) (args : alist Z) (nocontext : bool) (steps : list step) : string :=
   sep_concat " | " (run_steps st steps (if nocontext then [] else push_memo [] args)).
+
+(* ---------------------------------------------------------------- a walk over several uses *)
+(* what a typechecker does with the annotated parameters of one call: isinstance on each
+   in turn inside one context, stopping at the first that is not accepted *)
+Fixpoint walk (lbl : option string) (st : symtab) (us : list (annot * value)) (s : stack) : verdict * stack :=
+  match us with
+  | [] => (Acc, s)
+  | (a, v) :: r =>
+      match instancecheck false lbl st a v s with
+      | (Acc, s') => walk lbl st r s'
+      | x => x
+      end
+  end.
